@@ -33,6 +33,7 @@ class Scope(list[Any]):
     owner: "NixExpression | None"
     weak: bool
     parameters: frozenset[str]
+    lexical: bool
 
     def __init__(
         self, items: Iterable[Any] = (), *, owner: "NixExpression | None" = None
@@ -44,6 +45,10 @@ class Scope(list[Any]):
         # Names bound by the head of an un-applied lambda: they shadow outer
         # scopes but have no value to resolve to.
         self.parameters = frozenset()
+        # False for the attributes of a plain (non-rec) set consulted through
+        # `with` or `inherit (set)`: they are found there, but their values do
+        # not see their siblings.
+        self.lexical = True
 
     def _find_binding_index(self, key: str) -> int | None:
         from nix_manipulator.expressions.binding import Binding
